@@ -61,7 +61,7 @@ func c01R1(p *core.Program, r *core.Report, w *core.Func, parse *ast.CallExpr, f
 		case "write":
 			if e.Callee == "go/format.Node" && len(e.Call.Args) == 3 {
 				nodeCalls++
-				okArgs := isOSFile(info.TypeOf(e.Call.Args[0])) && core.VarOf(info, e.Call.Args[1]) == fsetV && core.VarOf(info, e.Call.Args[2]) == fileV && fileV != nil && fsetV != nil
+				okArgs := isOSFile(info.TypeOf(e.Call.Args[0])) && sameAlias(w, e.Call.Args[1], fsetV) && sameAlias(w, e.Call.Args[2], fileV) && fileV != nil && fsetV != nil
 				r.Check(okArgs, rule, w, "the file receives format.Node of the parsed AST", e.Call.Pos(), "format.Node(f, fset, file) with fset/file of the ParseFile call",
 					"format.Node does not print the AST returned by the ParseFile call (with its FileSet) into the opened file")
 			} else {
@@ -111,7 +111,7 @@ func c01R2(p *core.Program, r *core.Report, w *core.Func, parse *ast.CallExpr, f
 	}
 	isFumpt := func(q cfgx.Point) bool {
 		for _, c := range core.CallsTo(info, q.Node(), true, "mvdan.cc/gofumpt/format.File") {
-			if len(c.Args) == 3 && core.VarOf(info, c.Args[0]) == fsetV && core.VarOf(info, c.Args[1]) == fileV {
+			if len(c.Args) == 3 && sameAlias(w, c.Args[0], fsetV) && sameAlias(w, c.Args[1], fileV) {
 				return true
 			}
 		}
@@ -189,74 +189,101 @@ func c01R3(p *core.Program, r *core.Report, w *core.Func) {
 		r.Anchor(rule, "source buffer of the file writer")
 		return
 	}
-	// writes into src in CFG order: first must be the header Fprintf
-	writesInto := func(n ast.Node) *ast.CallExpr {
-		for _, c := range core.Calls(n, true) {
+	// the header: every write into the source buffer (alias class) that precedes the import block,
+	// in dominance order; its abstract text (constant parts + one marker per operand) is what is parsed.
+	// A single Fprintf, several WriteStrings or a mix are the same thing.
+	isImports := func(c *ast.CallExpr) bool {
+		// the import block step: a call that passes the source buffer together with the tracker's Imports()
+		for _, a := range c.Args {
+			if ic, ok := ast.Unparen(a).(*ast.CallExpr); ok && strings.HasSuffix(core.CalleeName(info, ic), ").Imports") {
+				return true
+			}
+		}
+		return false
+	}
+	type hw struct {
+		at   cfgx.Point
+		call *ast.CallExpr
+		t    tmpl
+		ok   bool
+	}
+	var writes []hw
+	var stop []cfgx.Point // imports / body steps
+	for _, q := range g.Points(func(n ast.Node) bool { return true }) {
+		for _, c := range core.Calls(q.Node(), true) {
+			if g.InLit(c) {
+				continue
+			}
 			name := core.CalleeName(info, c)
-			if idx, ok := writerCallees[name]; ok && idx >= 0 && idx < len(c.Args) && core.VarOf(info, c.Args[idx]) == src {
-				return c
+			if name == "io.Copy" && len(c.Args) == 2 && sameAlias(w, c.Args[0], src) {
+				stop = append(stop, q)
+				continue
 			}
-			if strings.HasPrefix(name, "(*bytes.Buffer).Write") && core.VarOf(info, recvOf(c)) == src {
-				return c
-			}
-			if fn := core.CalleeFunc(info, c); fn != nil && core.RelPkg(fn.Pkg().Path()) == "pkg/gengo" {
-				for _, a := range c.Args {
-					if core.VarOf(info, a) == src {
-						return c
-					}
+			passesSrc := false
+			for _, a := range c.Args {
+				if sameAlias(w, a, src) {
+					passesSrc = true
 				}
 			}
-		}
-		return nil
-	}
-	var first *ast.CallExpr
-	pts := g.Points(func(n ast.Node) bool { return writesInto(n) != nil })
-	for _, q := range pts {
-		dominatesAll := true
-		for _, o := range pts {
-			if o != q && !g.Dominates(q, o) {
-				dominatesAll = false
+			if passesSrc && isImports(c) {
+				stop = append(stop, q)
+				continue
+			}
+			if dest, t, ok := writeTemplate(info, c); dest != nil && sameAlias(w, dest, src) {
+				writes = append(writes, hw{q, c, t, ok})
 			}
 		}
-		if dominatesAll {
-			first = writesInto(q.Node())
+	}
+	// header writes: those that dominate every stop point
+	var header []hw
+	for _, x := range writes {
+		before := len(stop) > 0
+		for _, sp := range stop {
+			if !g.Dominates(x.at, sp) {
+				before = false
+			}
+		}
+		if before {
+			header = append(header, x)
 		}
 	}
-	if first == nil || core.CalleeName(info, first) != "fmt.Fprintf" {
-		r.Bad(rule, w, "the file starts with the generator header", w.Node().Pos(), "the first write into the source buffer is not a single fmt.Fprintf of the header")
+	// order by dominance
+	sortedOK := true
+	for i := 0; i < len(header); i++ {
+		for j := i + 1; j < len(header); j++ {
+			if g.Dominates(header[j].at, header[i].at) && !g.Dominates(header[i].at, header[j].at) {
+				header[i], header[j] = header[j], header[i]
+			}
+		}
+	}
+	for i := 0; i+1 < len(header); i++ {
+		if !g.Dominates(header[i].at, header[i+1].at) {
+			sortedOK = false
+		}
+	}
+	if len(header) == 0 || !sortedOK {
+		r.Bad(rule, w, "the file starts with the generator header", w.Node().Pos(), "no write of a header into the source buffer precedes the import block on every path")
 		return
 	}
-	format, isC := core.ConstString(info, first.Args[1])
-	if !isC {
-		r.Bad(rule, w, "the header format is a constant", first.Pos(), "the header is not built from a constant format")
-		return
+	first := header[0].call
+	full := tmpl{}
+	for _, x := range header {
+		if !x.ok {
+			r.Bad(rule, w, "the header is built from constant text", x.call.Pos(), "a header write is not constant text with plain string operands: "+core.ExprStr(x.call))
+			return
+		}
+		full = full.concat(x.t)
 	}
-	// substitute verbs by markers
-	ops := first.Args[2:]
+	ops := full.Ops
 	var sb strings.Builder
 	k := 0
-	bad := false
-	for i := 0; i < len(format); i++ {
-		if format[i] != '%' {
-			sb.WriteByte(format[i])
-			continue
-		}
-		if i+1 < len(format) && format[i+1] == '%' {
-			sb.WriteByte('%')
-			i++
-			continue
-		}
-		if i+1 < len(format) && (format[i+1] == 's' || format[i+1] == 'v') && k < len(ops) {
+	for i := 0; i < len(full.Text); i++ {
+		if full.Text[i] == 0 {
 			sb.WriteString(fmt.Sprintf("MARKER%d", k))
 			k++
-			i++
 			continue
 		}
-		bad = true
-	}
-	if bad || k != len(ops) {
-		r.Bad(rule, w, "header format uses plain %s verbs matching its operands", first.Pos(), "the header format has verbs other than %s/%v or a different number of operands")
-		return
+		sb.WriteByte(full.Text[i])
 	}
 	fset := token.NewFileSet()
 	hf, err := parser.ParseFile(fset, "header.go", sb.String()+"\n", parser.PackageClauseOnly|parser.ParseComments)
@@ -267,7 +294,8 @@ func c01R3(p *core.Program, r *core.Report, w *core.Func) {
 	// which operand is which
 	nameOp, pkgOps := -1, map[int]bool{}
 	for i, o := range ops {
-		if fld := core.FieldOf(info, o); isRole(p, fld, "file.name") && core.SameRef(info, o.(*ast.SelectorExpr).X, recvIdent(w)) {
+		oe, _ := core.Resolve(info, w.Body, o)
+		if fld := core.FieldOf(info, oe); isRole(p, fld, "file.name") && sameAlias(w, oe.(*ast.SelectorExpr).X, recvVar(w)) {
 			nameOp = i
 		}
 		e, _ := core.Resolve(info, w.Body, o)
@@ -312,24 +340,41 @@ func c01R4(p *core.Program, r *core.Report, w *core.Func, parse *ast.CallExpr) {
 		call *ast.CallExpr
 	}
 	var ws []wr
+	isImportsCall := func(c *ast.CallExpr) bool {
+		for _, a := range c.Args {
+			if ic, ok := ast.Unparen(a).(*ast.CallExpr); ok && strings.HasSuffix(core.CalleeName(info, ic), ").Imports") {
+				return true
+			}
+		}
+		return false
+	}
 	for _, q := range g.Points(func(n ast.Node) bool { return true }) {
 		for _, c := range core.Calls(q.Node(), true) {
+			if g.InLit(c) {
+				continue
+			}
 			name := core.CalleeName(info, c)
-			switch {
-			case name == "fmt.Fprintf" && len(c.Args) > 0 && core.VarOf(info, c.Args[0]) == src:
-				ws = append(ws, wr{q, "header", c})
-			case name == core.G("pkg/gengo.writeImports") && len(c.Args) > 0 && core.VarOf(info, c.Args[0]) == src:
-				ws = append(ws, wr{q, "imports", c})
-			case name == "io.Copy" && len(c.Args) == 2 && core.VarOf(info, c.Args[0]) == src:
-				ws = append(ws, wr{q, "body", c})
-			default:
-				mentions := false
-				for _, a := range c.Args {
-					if core.VarOf(info, a) == src {
-						mentions = true
-					}
+			passesSrc := false
+			for _, a := range c.Args {
+				if sameAlias(w, a, src) {
+					passesSrc = true
 				}
-				if rv := core.VarOf(info, recvOf(c)); rv == src && strings.HasPrefix(name, "(*bytes.Buffer).") && name != "(*bytes.Buffer).Bytes" && name != "(*bytes.Buffer).Len" && name != "(*bytes.Buffer).String" {
+			}
+			dest, _, _ := writeTemplate(info, c)
+			switch {
+			case passesSrc && isImportsCall(c):
+				ws = append(ws, wr{q, "imports", c})
+			case name == "io.Copy" && len(c.Args) == 2 && sameAlias(w, c.Args[0], src):
+				ws = append(ws, wr{q, "body", c})
+			case dest != nil && sameAlias(w, dest, src):
+				// text writes: they form the header when they precede the import block (R3 checks what they say)
+				if len(ws) > 0 && ws[len(ws)-1].kind == "header" {
+					continue // consecutive header writes are one step
+				}
+				ws = append(ws, wr{q, "header", c})
+			default:
+				mentions := passesSrc
+				if rv := core.VarOf(info, recvOf(c)); rv != nil && sameAlias(w, recvOf(c), src) && strings.HasPrefix(name, "(*bytes.Buffer).") && name != "(*bytes.Buffer).Bytes" && name != "(*bytes.Buffer).Len" && name != "(*bytes.Buffer).String" {
 					mentions = true
 				}
 				if mentions && name != "bytes.NewBuffer" {
@@ -370,12 +415,12 @@ func c01R4(p *core.Program, r *core.Report, w *core.Func, parse *ast.CallExpr) {
 	bodyOK := false
 	for _, x := range ws {
 		if x.kind == "body" {
-			if fld := core.FieldOf(info, x.call.Args[1]); isRole(p, fld, "file.body") && core.SameRef(info, x.call.Args[1].(*ast.SelectorExpr).X, recvIdent(w)) {
+			if fld := core.FieldOf(info, x.call.Args[1]); isRole(p, fld, "file.body") && sameAlias(w, x.call.Args[1].(*ast.SelectorExpr).X, recvVar(w)) {
 				bodyOK = true
 			}
 		}
 	}
-	iw := p.FuncByName("pkg/gengo", "(*genfile).InitWith")
+	iw := fileMethod(p, "InitWith")
 	swOK := false
 	if iw != nil {
 		for _, c := range core.CallsTo(iw.Info(), iw.Body, true, core.G("pkg/gengo.NewSnippetWriter")) {
